@@ -8,6 +8,11 @@ for the monitor spec/Descr/DescrTrace.tla.
   slots : Slot(...), convert_slots_to_new, convert_slots_to_old
   func  : PythonTask(...) / pythontask(f)(...) / PythonTask.get_func_attr,
           the decoded call, and the real raptor Worker._dispatch_func
+  tdseq : ONE TaskDescription object: verify() / rp.Task(...) interleaved with
+          changes through attributes, items, update() and in-place mutation
+  xfunc : payloads encoded by a real __main__ script (this module run with
+          `python -m`, so that its classes and functions are those of the
+          application script) and decoded + called in a fresh interpreter
   fseq  : several short-lived callables (partials, lambdas, closures made in
           a loop) encoded one after the other, each dropped before the next
           one is made; all decoded and called afterwards
@@ -20,9 +25,17 @@ call.  Deterministic; no clock, no network, no sub-processes.
 '''
 
 import os
+import sys
 import copy
+import json
+import shutil
 import asyncio
+import tempfile
 import functools
+import importlib
+import subprocess
+
+from unittest import mock
 
 from .. import rpshim
 
@@ -86,7 +99,33 @@ def dec(cls, a, v):
 def defaults(cls, attrs):
     d = {a: enc(cls, a, cls._defaults.get(a)) for a in attrs}
     d['extra'] = 0
+    if cls is TD:
+        d['loose'] = 0
     return d
+
+
+# `loose`: values which do not have their schema type (yet)
+def loose_of(data):
+    a, e, t = data.get('arguments'), data.get('environment'), data.get('timeout')
+    ok = all(isinstance(x, str) for x in (a or [])) \
+         and all(isinstance(v, str) for v in (e or {}).values()) \
+         and (t is None or isinstance(t, float))
+    return 0 if ok else 1
+
+
+def canon(rest):
+    '''the rest of a description with those values in their schema type'''
+    r = dict(rest)
+    if isinstance(r.get('arguments'), list):
+        r['arguments'] = [str(x) for x in r['arguments']]
+    if isinstance(r.get('environment'), dict):
+        r['environment'] = {k: str(v) for k, v in r['environment'].items()}
+    if isinstance(r.get('timeout'), (int, str)) and not isinstance(r.get('timeout'), bool):
+        try:
+            r['timeout'] = float(r['timeout'])
+        except ValueError:
+            pass
+    return r
 
 
 def diff(before, after):
@@ -161,7 +200,7 @@ class _DescrCase(object):
         self.req = defaults(cls, attrs)
         self.req.update(inp)
         self.x = self.req['extra']
-        fd = {a: dec(cls, a, v) for a, v in inp.items() if a != 'extra'}
+        fd = {a: dec(cls, a, v) for a, v in inp.items() if a not in ('extra', 'loose')}
         pl = payload(self.x)
         for k, v in pl.items():
             fd.setdefault(k, v)
@@ -170,13 +209,16 @@ class _DescrCase(object):
         self.rest0 = self.rest(self.obj)
 
     def rest(self, obj):
-        d = obj.as_dict()
-        return {k: v for k, v in d.items() if k not in self.attrs}
+        d = obj.as_dict() if isinstance(obj, ru.TypedDict) else ru.as_dict(obj)
+        return canon({k: v for k, v in d.items() if k not in self.attrs})
 
     def proj(self, obj):
-        p = {a: enc(self.cls, a, obj._data[a]) if a in obj._data else
+        data = obj._data if isinstance(obj, ru.TypedDict) else obj
+        p = {a: enc(self.cls, a, data[a]) if a in data else
                 (-3 if _is_num(self.cls, a) else 'missing') for a in self.attrs}
         p['extra'] = self.x if self.rest(obj) == self.rest0 else -2
+        if self.cls is TD:
+            p['loose'] = loose_of(data)
         return p
 
     def events(self):
@@ -213,6 +255,79 @@ class _DescrCase(object):
 def run_td(inp):
     c = _DescrCase(TD, TD_ATTRS, td_payload, inp)
     return {'kind': 'td', 'inp': dict(inp), 'events': c.events()}
+
+
+# ------------------------------------------------------------------------------
+# one description object, used again and again
+#
+def seq_payload(x):
+    return {'uid': 'task.000001', 'arguments': ['1'], 'environment': {'A': 'b'}}
+
+
+def _seq_set(obj, how, changes):
+    '''the application changes the object: `changes` is the content TLC chose'''
+    vals = dict()
+    for k, v in changes.items():
+        if k == 'loose':
+            if how == 'inplace':
+                obj.arguments.append(10)
+                obj.environment['X'] = 1
+            else:
+                vals['timeout']   = '30'
+                vals['arguments'] = [10, 'a']
+        else:
+            vals[k] = dec(TD, k, v)
+    if how == 'attr':
+        for k, v in vals.items():
+            setattr(obj, k, v)
+    elif how == 'item':
+        for k, v in vals.items():
+            obj[k] = v
+    elif how == 'update':
+        obj.update(vals)
+    elif how != 'inplace' or vals:
+        raise ValueError(how)
+
+
+def run_tdseq(inp):
+    c    = _DescrCase(TD, TD_ATTRS, seq_payload, dict(inp['base']))
+    obj  = c.obj
+    cur  = c.proj(obj)
+    evs  = [{'ev': 'Create', 'out': diff(c.req, cur)}]
+    after, prior = 'none', 'fresh'
+    tmgr = mock.MagicMock()
+    tmgr.uid = 'tmgr.0000'
+
+    for step in inp['ops']:
+        how = step['how']
+        if how in ('verify', 'submit'):
+            ev = {'ev': 'Verify', 'via': 'verify' if how == 'verify' else 'task',
+                  'after': after, 'prior': prior, 'exc': 'none'}
+            sent = None
+            try:
+                if how == 'verify':
+                    obj.verify()
+                else:
+                    # what submit_tasks does with a description
+                    task = rp.Task(tmgr, obj, origin='client')
+                    sent = task.as_dict()['description']
+                ev['res'] = 'ok'
+            except Exception as e:
+                ev['res'], ev['exc'] = 'raise', type(e).__name__
+            # for a submission: the description which travels
+            new = c.proj(sent if sent is not None else obj)
+            ev['out'] = diff(cur, new)
+            evs.append(ev)
+            cur = c.proj(obj)
+            if ev['res'] == 'ok':
+                after, prior = 'none', 'verified'
+        else:
+            _seq_set(obj, how, step['set'] if isinstance(step['set'], dict) else {})
+            c.rest0 = c.rest(obj)            # the application's own change
+            new = c.proj(obj)
+            evs.append({'ev': 'Set', 'how': how, 'op': step['op'], 'out': diff(cur, new)})
+            cur, after = new, how
+    return {'kind': 'tdseq', 'inp': copy.deepcopy(inp), 'events': evs}
 
 
 def run_pd(inp):
@@ -542,9 +657,174 @@ def run_fseq(inp):
 
 
 # ------------------------------------------------------------------------------
+# payloads for another interpreter.  The "application code" below is free of
+# references to other globals of this module: dill ships functions of __main__
+# by value, but not the globals they would look up at call time.
+#
+class Scale(object):
+    '''a callable object'''
+
+    def __init__(self, factor):
+        self.factor = factor
+
+    def __call__(self, x, y=0):
+        return ('scale', self.factor * x + y)
+
+    def shift(self, x, y=0):
+        return ('shift', x - self.factor + y)
+
+
+def app_plain(x, y=1):
+    return ('plain', x * 10 + y)
+
+
+APP_LAMBDA = lambda x, y=0: ('lambda', x + 1 + y)                  # noqa: E731
+
+
+def app_make_closure():
+    scale = Scale(3)
+    return lambda x, y=0: ('closure', scale(x, y))
+
+
+@rp.pythontask
+def app_decorated(x, y=0):
+    return ['decorated', x, y]
+
+
+XFUNCS = ['plain', 'lambda', 'partial', 'instance', 'method', 'closure', 'partial_obj',
+          'decorated']
+XARGS  = {'pos': ((4,), {}), 'kw': ((4,), {'y': 2}), 'two': ((4, 5), {})}
+MODULE = 'harness.rigs.descr_rig'
+VERIF  = os.path.dirname(os.path.dirname(os.path.dirname(os.path.abspath(__file__))))
+
+
+def x_callable(ns, kind):
+    if kind == 'plain':
+        return ns.app_plain
+    if kind == 'lambda':
+        return ns.APP_LAMBDA
+    if kind == 'partial':
+        return functools.partial(ns.app_plain, y=5)
+    if kind == 'instance':
+        return ns.Scale(2)
+    if kind == 'method':
+        return ns.Scale(2).shift
+    if kind == 'closure':
+        return ns.app_make_closure()
+    if kind == 'partial_obj':
+        return functools.partial(ns.Scale(5), y=2)
+    if kind == 'decorated':
+        return ns.app_decorated.__wrapped__
+    raise ValueError(kind)
+
+
+def encode_main(fin, fout):
+    '''runs as the application script: `python -m harness.rigs.descr_rig encode`'''
+    assert __name__ == '__main__'
+    with open(fin) as fh:
+        cases = json.load(fh)
+    out = []
+    for c in cases:
+        ns = sys.modules['__main__'] if c['w'] == 'main' else importlib.import_module(MODULE)
+        args, kw = XARGS[c['a']]
+        r = {'module': x_callable(ns, 'instance').__class__.__module__,
+             'direct': _outcome(lambda: x_callable(ns, c['f'])(*args, **kw))[:400]}
+        try:
+            if c['f'] == 'decorated':
+                r['bson'] = ns.app_decorated(*args, **kw)
+            else:
+                r['bson'] = rp.PythonTask(x_callable(ns, c['f']), args, kw)
+            r['res'], r['exc'] = 'ok', 'none'
+            r['isstr'] = isinstance(r['bson'], str)
+            r['local'] = _decode_call(r['bson'])
+        except Exception as e:
+            r.update({'res': 'raise', 'exc': type(e).__name__, 'isstr': False, 'bson': '',
+                      'local': 'undecodable'})
+        out.append(r)
+    with open(fout, 'w') as fh:
+        json.dump(out, fh)
+
+
+def _decode_call(bson):
+    try:
+        func, args, kw = rp.PythonTask.get_func_attr(bson)
+    except Exception as e:
+        return 'undecodable:%s' % type(e).__name__
+    return _outcome(lambda: func(*args, **kw))[:400]
+
+
+def decode_main(fin, fout):
+    '''runs in a fresh interpreter whose __main__ is NOT this module'''
+    assert __name__ != '__main__'
+    with open(fin) as fh:
+        bsons = json.load(fh)
+    with open(fout, 'w') as fh:
+        json.dump([_decode_call(b) for b in bsons], fh)
+
+
+WORKER = ('import sys; sys.path.insert(0, %r); '
+          'from harness.rigs import descr_rig as R; R.decode_main(sys.argv[1], sys.argv[2])'
+          % VERIF)
+
+
+def run_xfunc_batch(inps):
+    '''all cases of a run: one application process encodes, one worker process
+       decodes and calls'''
+    if not inps:
+        return []
+    tmp = tempfile.mkdtemp(prefix='rpverif_descr_', dir=os.environ.get('RP_VERIF_TMP', '/tmp'))
+    try:
+        def path(n):
+            return os.path.join(tmp, n)
+        with open(path('cases.json'), 'w') as fh:
+            json.dump(inps, fh)
+        env = dict(os.environ)
+        env['PYTHONPATH'] = VERIF + os.pathsep + env.get('PYTHONPATH', '')
+        p = subprocess.run([sys.executable, '-m', MODULE, 'encode', path('cases.json'),
+                            path('enc.json')], cwd=tmp, env=env, timeout=300,
+                           stdout=subprocess.PIPE, stderr=subprocess.STDOUT)
+        if p.returncode:
+            raise RuntimeError('application process failed: %s' % p.stdout.decode()[-2000:])
+        with open(path('enc.json')) as fh:
+            enc_out = json.load(fh)
+        with open(path('bsons.json'), 'w') as fh:
+            json.dump([r['bson'] for r in enc_out], fh)
+        p = subprocess.run([sys.executable, '-c', WORKER, path('bsons.json'), path('dec.json')],
+                           cwd=tmp, env=env, timeout=300,
+                           stdout=subprocess.PIPE, stderr=subprocess.STDOUT)
+        if p.returncode:
+            raise RuntimeError('worker process failed: %s' % p.stdout.decode()[-2000:])
+        with open(path('dec.json')) as fh:
+            remote = json.load(fh)
+    finally:
+        shutil.rmtree(tmp, ignore_errors=True)
+
+    traces = []
+    for inp, r, rem in zip(inps, enc_out, remote):
+        want = '__main__' if inp['w'] == 'main' else MODULE
+        if r['module'] != want:
+            raise RuntimeError('class lives in %s, not in %s' % (r['module'], want))
+        evs = [{'ev': 'Encode', 'res': r['res'], 'exc': r['exc'], 'isstr': r['isstr']}]
+        if r['res'] == 'ok':
+            for at, dec_ in (('local', r['local']), ('remote', rem)):
+                evs.append({'ev': 'Call', 'at': at, 'direct': r['direct'], 'decoded': dec_,
+                            'decodes': not dec_.startswith('undecodable')})
+        traces.append({'kind': 'xfunc', 'inp': dict(inp), 'events': evs})
+    return traces
+
+
+# ------------------------------------------------------------------------------
 RUNNERS = {'td': run_td, 'pd': run_pd, 'slots': run_slots, 'func': run_func,
-           'fseq': run_fseq}
+           'fseq': run_fseq, 'tdseq': run_tdseq}
 
 
 def run(kind, inp):
     return RUNNERS[kind](inp)
+
+
+# ------------------------------------------------------------------------------
+if __name__ == '__main__':
+    if len(sys.argv) == 4 and sys.argv[1] == 'encode':
+        encode_main(sys.argv[2], sys.argv[3])
+    else:
+        sys.exit('usage: python -m harness.rigs.descr_rig encode <cases.json> <out.json>')
